@@ -526,19 +526,21 @@ Section WithOracle.
   Ltac nf_app := repeat (first [rewrite <- app_assoc | progress cbn [app]]).
   Ltac nf_app_in H := repeat (first [rewrite <- app_assoc in H | progress cbn [app] in H]).
 
-  Lemma scan_body_literal : forall d0 t0 fp ex c r pos l k ll x ws,
+  (** the token type of a literal: scanner.Int exactly when it has neither fraction nor exponent *)
+  Definition lit_typ (fp : option bytes) (ex : option (Z * option Z * bytes)) : Z :=
+    match fp, ex with None, None => TInt | _, _ => TFloat end.
+
+  Lemma scan_body_literal_typ : forall d0 t0 fp ex c r pos l k ll x ws,
     (length (lit_tail t0 fp ex) + 4 < F)%nat -> 0 < k ->
     is_decimal d0 = true -> Forall (fun a => is_decimal a = true) t0 -> (d0 <> 48 \/ t0 = []) ->
     wf_frac fp -> wf_exp ex -> numterm c ->
-    exists typ, (typ = TInt \/ typ = TFloat) /\
       scan_body d0 (mkS (lit_tail t0 fp ex ++ c :: r) [d0] pos l k ll x ws)
-      = SOk ({| t_typ := typ; t_pos := {| p_line := l; p_column := k; p_offset := pos - 1 |}; t_txt := d0 :: lit_tail t0 fp ex |},
+      = SOk ({| t_typ := lit_typ fp ex; t_pos := {| p_line := l; p_column := k; p_offset := pos - 1 |}; t_txt := d0 :: lit_tail t0 fp ex |},
              stepS c r (pos + blen (lit_tail t0 fp ex)) l (k + blen (lit_tail t0 fp ex)) ll c ws).
   Proof.
     intros d0 t0 fp ex c r pos l k ll x ws HF Hk Hd Ht Hz Hfp Hex Hc.
-    destruct fp as [f|], ex as [[[e sg] ds]|]; unfold lit_tail in *; cbn [frac_text exp_text app] in *.
-    4: { rewrite app_nil_r in *. exists TInt. split; [left; reflexivity|]. apply scan_body_uint; try assumption. lia. }
-    all: exists TFloat; split; [right; reflexivity|].
+    destruct fp as [f|], ex as [[[e sg] ds]|]; unfold lit_tail in *; cbn [frac_text exp_text app lit_typ] in *.
+    4: { rewrite app_nil_r in *. apply scan_body_uint; try assumption. lia. }
     all: destruct (is_decimal_ascii d0 Hd) as (Ha0 & _ & _ & _).
     all: unfold scan_body; rewrite (ident_rune_first d0 Ha0), (decimal_not_id0 d0 Hd), Hd.
     all: cbn [s_last s_rest s_pos s_col s_line mkS].
@@ -598,5 +600,20 @@ Section WithOracle.
       apply (scan_body_finish TFloat d0 (t0 ++ e :: (match sg with Some sg0 => [sg0] | None => [] end) ++ x0 :: xt));
         [exact Hk| | |nf_app; reflexivity|change (blen [d0]) with 1; reflexivity];
         repeat (rewrite blen_app || rewrite blen_cons); destruct sg; rewrite ?blen_nil; lia.
+  Qed.
+
+  Lemma lit_typ_cases : forall fp ex, lit_typ fp ex = TInt \/ lit_typ fp ex = TFloat.
+  Proof. intros [f|] [[[e sg] ds]|]; cbn [lit_typ]; auto. Qed.
+
+  Lemma scan_body_literal : forall d0 t0 fp ex c r pos l k ll x ws,
+    (length (lit_tail t0 fp ex) + 4 < F)%nat -> 0 < k ->
+    is_decimal d0 = true -> Forall (fun a => is_decimal a = true) t0 -> (d0 <> 48 \/ t0 = []) ->
+    wf_frac fp -> wf_exp ex -> numterm c ->
+    exists typ, (typ = TInt \/ typ = TFloat) /\
+      scan_body d0 (mkS (lit_tail t0 fp ex ++ c :: r) [d0] pos l k ll x ws)
+      = SOk ({| t_typ := typ; t_pos := {| p_line := l; p_column := k; p_offset := pos - 1 |}; t_txt := d0 :: lit_tail t0 fp ex |},
+             stepS c r (pos + blen (lit_tail t0 fp ex)) l (k + blen (lit_tail t0 fp ex)) ll c ws).
+  Proof.
+    intros. exists (lit_typ fp ex). split; [apply lit_typ_cases|]. apply scan_body_literal_typ; assumption.
   Qed.
 End WithOracle.
